@@ -75,15 +75,15 @@ Proof.
 Qed.
 
 Lemma ord_bytes_invol (o : order) (bs : list Z) : ord_bytes o (ord_bytes o bs) = bs.
-Proof. destruct o; cbn [ord_bytes]; [reflexivity|apply rev_involutive]. Qed.
+Proof. destruct o; cbn [ord_bytes]; try reflexivity. apply rev_involutive. Qed.
 
 Lemma ord_bytes_length (o : order) (bs : list Z) : length (ord_bytes o bs) = length bs.
-Proof. destruct o; cbn [ord_bytes]; [reflexivity|apply rev_length]. Qed.
+Proof. destruct o; cbn [ord_bytes]; try reflexivity. apply rev_length. Qed.
 
 Lemma ord_bytes_range (o : order) (bs : list Z) :
   Forall (fun b => 0 <= b < 256) bs -> Forall (fun b => 0 <= b < 256) (ord_bytes o bs).
 Proof.
-  destruct o; cbn [ord_bytes]; [tauto|]. intros H.
+  destruct o; cbn [ord_bytes]; try tauto. intros H.
   apply Forall_forall. intros b Hb. apply in_rev in Hb.
   revert b Hb. apply Forall_forall. exact H.
 Qed.
@@ -453,4 +453,539 @@ Proof.
   - apply last_last.
   - exists (map EvSample outs). repeat split.
     apply Forall_forall. intros e He. apply in_map_iff in He as [x [<- _]]. reflexivity.
+Qed.
+
+(* ------------------------------------------------------------------ *)
+(* 4. chunks: the two strategies build the same block list              *)
+(* ------------------------------------------------------------------ *)
+
+(* the block list the array strategy packs *)
+Definition arr_fin (size : nat) (pad : Z) (p : list (list Z) * list Z) : list (list Z) :=
+  let '(ys, buf) := p in
+  match buf with [] => ys | _ => ys ++ [buf ++ repeat pad (size - length buf)] end.
+
+Lemma chunks_array_fin (size : nat) (f : dfmt) (o : order) (pad : Z) (xs : list Z) :
+  chunks_array size f o pad xs =
+  pack_blocks false f o (arr_fin size pad (arr_loop size [] xs)).
+Proof.
+  unfold chunks_array, arr_fin. destruct (arr_loop size [] xs) as [ys buf]. reflexivity.
+Qed.
+
+Lemma arr_fin_yield (size : nat) (pad : Z) (b : list Z) (p : list (list Z) * list Z) :
+  arr_fin size pad (let '(ys, bf) := p in (b :: ys, bf)) = b :: arr_fin size pad p.
+Proof. destruct p as [ys [|x bf]]; reflexivity. Qed.
+
+Lemma blocks_spec_short_eq (size : nat) (pad : Z) (xs : list Z) :
+  (length xs < size)%nat ->
+  blocks_spec size size pad xs =
+  match xs with [] => [] | _ => [xs ++ repeat pad (size - length xs)] end.
+Proof.
+  intros H. rewrite blocks_spec_short by assumption.
+  destruct xs as [|x xs].
+  - replace (Z.max (Z.of_nat size - Z.of_nat size) 0 <? Z.of_nat (length (@nil Z)))
+      with false; [reflexivity|].
+    symmetry. apply Z.ltb_ge. cbn [length]. lia.
+  - replace (Z.max (Z.of_nat size - Z.of_nat size) 0 <? Z.of_nat (length (x :: xs)))
+      with true; [reflexivity|].
+    symmetry. apply Z.ltb_lt. cbn [length]. lia.
+Qed.
+
+Lemma arr_loop_spec (size : nat) (pad : Z) : (1 <= size)%nat ->
+  forall (xs buf : list Z), (length buf < size)%nat ->
+  arr_fin size pad (arr_loop size buf xs) = blocks_spec size size pad (buf ++ xs).
+Proof.
+  intros Hs. induction xs as [|x r IH]; intros buf Hbuf.
+  - cbn [arr_loop arr_fin]. rewrite app_nil_r.
+    rewrite blocks_spec_short_eq by assumption.
+    destruct buf as [|b buf]; reflexivity.
+  - cbn [arr_loop]. cbv zeta.
+    destruct (Nat.eqb_spec (length (buf ++ [x])) size) as [E|E].
+    + rewrite arr_fin_yield.
+      rewrite (IH []) by (cbn [length]; lia). cbn [app].
+      replace (buf ++ x :: r) with ((buf ++ [x]) ++ r)
+        by (rewrite <- app_assoc; reflexivity).
+      rewrite (blocks_spec_cons Z size size pad ((buf ++ [x]) ++ r))
+        by (try assumption; rewrite app_length; lia).
+      rewrite firstn_len_app, skipn_len_app by assumption. reflexivity.
+    + rewrite IH by (rewrite app_length in *; cbn [length] in *; lia).
+      rewrite <- app_assoc. reflexivity.
+Qed.
+
+(* both strategies pack the closed-form block list of C08 (hop = size) *)
+Lemma chunks_struct_spec (size : nat) (f : dfmt) (o : order) (pad : Z) (xs : list Z) :
+  (1 <= size)%nat ->
+  chunks_struct size f o pad xs =
+  pack_blocks (struct_strict o) f o (blocks_spec size size pad xs).
+Proof.
+  intros Hs. unfold chunks_struct. rewrite blocks_model_eq_spec by assumption. reflexivity.
+Qed.
+
+Lemma chunks_array_spec (size : nat) (f : dfmt) (o : order) (pad : Z) (xs : list Z) :
+  (1 <= size)%nat ->
+  chunks_array size f o pad xs = pack_blocks false f o (blocks_spec size size pad xs).
+Proof.
+  intros Hs. rewrite chunks_array_fin.
+  rewrite arr_loop_spec by (try assumption; cbn [length]; lia).
+  reflexivity.
+Qed.
+
+(* the two strategies see the same blocks *)
+Theorem chunks_blocks_same (size : nat) (pad : Z) (xs : list Z) :
+  (1 <= size)%nat ->
+  arr_fin size pad (arr_loop size [] xs) = blocks_model size size pad xs.
+Proof.
+  intros Hs. rewrite blocks_model_eq_spec by assumption.
+  apply arr_loop_spec; [assumption|cbn [length]; lia].
+Qed.
+
+(* ------------------------------------------------------------------ *)
+(* 5. chunks: the blocks concatenate to the padded input                *)
+(* ------------------------------------------------------------------ *)
+
+Lemma npads_short (size L : nat) : (L < size)%nat ->
+  npads size L = match L with O => O | _ => (size - L)%nat end.
+Proof.
+  intros H. unfold npads. rewrite (Nat.mod_small L size) by assumption.
+  destruct L as [|L].
+  - rewrite Nat.sub_0_r. apply Nat.mod_same. lia.
+  - apply Nat.mod_small. lia.
+Qed.
+
+Lemma npads_step (size L : nat) : (1 <= size <= L)%nat ->
+  npads size L = npads size (L - size).
+Proof.
+  intros H. unfold npads. f_equal. f_equal.
+  replace L with ((L - size) + 1 * size)%nat at 1 by lia.
+  apply Nat.mod_add. lia.
+Qed.
+
+Lemma blocks_concat_padded_n (size : nat) (pad : Z) : (1 <= size)%nat ->
+  forall (n : nat) (xs : list Z), (length xs <= n)%nat ->
+  concat (blocks_spec size size pad xs) = padded size pad xs.
+Proof.
+  intros Hs. induction n as [|n IH]; intros xs Hn.
+  - destruct xs; [|cbn [length] in Hn; lia].
+    rewrite blocks_spec_short_eq by (cbn [length]; lia).
+    unfold padded. cbn [length]. rewrite npads_short by lia. reflexivity.
+  - destruct (Nat.lt_ge_cases (length xs) size) as [Hlt|Hge].
+    + rewrite blocks_spec_short_eq by assumption.
+      unfold padded. rewrite npads_short by assumption.
+      destruct xs as [|x xs]; [reflexivity|].
+      cbn [concat]. rewrite app_nil_r. reflexivity.
+    + rewrite blocks_spec_cons by assumption.
+      cbn [concat]. rewrite IH by (rewrite skipn_length; lia).
+      unfold padded. rewrite skipn_length, <- npads_step by lia.
+      rewrite app_assoc, firstn_skipn. reflexivity.
+Qed.
+
+Lemma blocks_concat_padded (size : nat) (pad : Z) (xs : list Z) : (1 <= size)%nat ->
+  concat (blocks_spec size size pad xs) = padded size pad xs.
+Proof. intros Hs. apply (blocks_concat_padded_n size pad Hs (length xs)). apply le_n. Qed.
+
+Lemma padded_members (size : nat) (pad : Z) (xs : list Z) (P : Z -> Prop) :
+  Forall P (pad :: xs) -> Forall P (padded size pad xs).
+Proof.
+  intros H. inversion H as [|? ? Hp Hxs]; subst.
+  unfold padded. apply Forall_app. split; [exact Hxs|].
+  apply Forall_forall. intros v Hv. apply repeat_spec in Hv. subst v. exact Hp.
+Qed.
+
+(* the padded length is the least multiple of size that holds the input *)
+Lemma padded_length (size : nat) (pad : Z) (xs : list Z) : (1 <= size)%nat ->
+  (length (padded size pad xs) mod size = 0)%nat /\
+  (length xs <= length (padded size pad xs) < length xs + size)%nat.
+Proof.
+  intros Hs. unfold padded. rewrite app_length, repeat_length. unfold npads.
+  set (L := length xs).
+  pose proof (Nat.div_mod L size ltac:(lia)) as Hdm.
+  pose proof (Nat.mod_upper_bound L size ltac:(lia)) as Hub.
+  destruct (Nat.eq_dec (L mod size) 0) as [E|E].
+  - rewrite E, Nat.sub_0_r, Nat.mod_same, Nat.add_0_r by lia. split; [exact E|lia].
+  - rewrite (Nat.mod_small (size - L mod size) size) by lia. split; [|lia].
+    replace (L + (size - L mod size))%nat with (0 + (L / size + 1) * size)%nat by nia.
+    rewrite Nat.mod_add by lia. apply Nat.mod_small. lia.
+Qed.
+
+(* ------------------------------------------------------------------ *)
+(* 6. chunks: packing, then unpacking                                   *)
+(* ------------------------------------------------------------------ *)
+
+Lemma bits_of_b32_range (x : binary32) : 0 <= bits_of_b32 x < 2 ^ 32.
+Proof. apply (bits_of_binary_float_range 23 8); reflexivity. Qed.
+
+(* a double is identified with its bit pattern *)
+Theorem f64_bits_roundtrip (v : Z) : 0 <= v < 2 ^ 64 -> bits_of_b64 (b64_of_bits v) = v.
+Proof. intros Hv. apply (bits_of_binary_float_of_bits 52 11). exact Hv. Qed.
+
+Theorem f32_bits_roundtrip (v : Z) : 0 <= v < 2 ^ 32 -> bits_of_b32 (b32_of_bits v) = v.
+Proof. intros Hv. apply (bits_of_binary_float_of_bits 23 8). exact Hv. Qed.
+
+(* enc_f32 either returns the four bytes of the rounded value or fails (strict overflow) *)
+Lemma enc_f32_some (strict : bool) (o : order) (v : Z) (p : list Z) :
+  enc_f32 strict o v = Some p ->
+  p = ord_bytes o (le_bytes 4 (bits_of_b32 (f64_to_f32 (b64_of_bits v)))).
+Proof.
+  unfold enc_f32. intros H.
+  destruct (strict && f32_overflows v); [discriminate H|].
+  injection H as <-. reflexivity.
+Qed.
+
+Lemma enc_f32_none_iff (strict : bool) (o : order) (v : Z) :
+  enc_f32 strict o v = None <-> strict = true /\ f32_overflows v = true.
+Proof.
+  unfold enc_f32. rewrite <- andb_true_iff.
+  destruct (strict && f32_overflows v); split; intros H; try reflexivity; discriminate H.
+Qed.
+
+(* one sample: what was packed is what unpacking returns *)
+Lemma sample_roundtrip (strict : bool) (f : dfmt) (o : order) (v : Z) (p : list Z) :
+  (f = Fd -> 0 <= v < 2 ^ 64) ->
+  enc_sample strict f o v = Some p ->
+  dec_sample f o p = stored f v /\ length p = width f.
+Proof.
+  intros Hd H. destruct f; cbn [enc_sample dec_sample stored width] in *.
+  - apply int_roundtrip; [lia|exact H].
+  - apply int_roundtrip; [lia|exact H].
+  - apply int_roundtrip; [lia|exact H].
+  - apply enc_f32_some in H. subst p. unfold dec_fbits.
+    rewrite ord_bytes_invol, ord_bytes_length, le_bytes_length, le_val_le_bytes.
+    split; [|reflexivity].
+    change (256 ^ Z.of_nat 4) with (2 ^ 32).
+    apply Z.mod_small. apply bits_of_b32_range.
+  - unfold enc_f64 in H. injection H as <-. unfold dec_fbits.
+    rewrite ord_bytes_invol, ord_bytes_length, le_bytes_length, le_val_le_bytes.
+    split; [|reflexivity].
+    change (256 ^ Z.of_nat 8) with (2 ^ 64).
+    apply Z.mod_small. apply Hd. reflexivity.
+Qed.
+
+Lemma enc_sample_length (strict : bool) (f : dfmt) (o : order) (v : Z) (p : list Z) :
+  enc_sample strict f o v = Some p -> length p = width f.
+Proof.
+  destruct f; cbn [enc_sample width]; intros H.
+  - apply (int_roundtrip 1 o v p); [lia|exact H].
+  - apply (int_roundtrip 2 o v p); [lia|exact H].
+  - apply (int_roundtrip 4 o v p); [lia|exact H].
+  - apply enc_f32_some in H. subst p.
+    rewrite ord_bytes_length. apply le_bytes_length.
+  - unfold enc_f64 in H. injection H as <-.
+    rewrite ord_bytes_length. apply le_bytes_length.
+Qed.
+
+Lemma enc_block_pieces (strict : bool) (f : dfmt) (o : order) : forall (b ch : list Z),
+  enc_block strict f o b = Some ch ->
+  exists ps, Forall2 (fun v p => enc_sample strict f o v = Some p) b ps /\ ch = concat ps.
+Proof.
+  induction b as [|v r IH]; intros ch H; cbn [enc_block] in H.
+  - injection H as <-. exists []. split; [constructor|reflexivity].
+  - destruct (enc_sample strict f o v) as [x|] eqn:Ex; [|discriminate H].
+    destruct (enc_block strict f o r) as [y|] eqn:Ey; [|discriminate H].
+    injection H as <-. destruct (IH y eq_refl) as [ps [Hps ->]].
+    exists (x :: ps). split; [constructor; assumption|reflexivity].
+Qed.
+
+Lemma pack_blocks_ok (strict : bool) (f : dfmt) (o : order) : forall (bl chs : list (list Z)),
+  pack_blocks strict f o bl = (chs, false) ->
+  Forall2 (fun b ch => enc_block strict f o b = Some ch) bl chs.
+Proof.
+  induction bl as [|b r IH]; intros chs H; cbn [pack_blocks] in H.
+  - injection H as <-. constructor.
+  - destruct (enc_block strict f o b) as [x|] eqn:Ex; [|discriminate H].
+    destruct (pack_blocks strict f o r) as [ys e] eqn:Er.
+    injection H as <- ->. constructor; [exact Ex|]. apply IH. reflexivity.
+Qed.
+
+Lemma pieces_length (strict : bool) (f : dfmt) (o : order) (b : list Z) (ps : list (list Z)) :
+  Forall2 (fun v p => enc_sample strict f o v = Some p) b ps ->
+  Forall (fun p => length p = width f) ps /\ length ps = length b.
+Proof.
+  intros H. induction H as [|v p b ps Hvp _ [IH1 IH2]].
+  - split; [constructor|reflexivity].
+  - split; [constructor; [|exact IH1]|cbn [length]; congruence].
+    apply (enc_sample_length strict f o v p Hvp).
+Qed.
+
+(* all pieces of all blocks, in order *)
+Lemma pack_blocks_pieces (strict : bool) (f : dfmt) (o : order) (bl chs : list (list Z)) :
+  Forall2 (fun b ch => enc_block strict f o b = Some ch) bl chs ->
+  exists ps, Forall2 (fun v p => enc_sample strict f o v = Some p) (concat bl) ps /\
+             concat chs = concat ps.
+Proof.
+  intros H. induction H as [|b ch bl chs Hb _ [ps [Hps Hc]]].
+  - exists []. split; [constructor|reflexivity].
+  - destruct (enc_block_pieces strict f o b ch Hb) as [qs [Hqs ->]].
+    exists (qs ++ ps). cbn [concat]. split.
+    + apply Forall2_app; assumption.
+    + rewrite concat_app, Hc. reflexivity.
+Qed.
+
+Lemma pieces_decode (strict : bool) (f : dfmt) (o : order) (vs : list Z) (ps : list (list Z)) :
+  (f = Fd -> Forall (fun v => 0 <= v < 2 ^ 64) vs) ->
+  Forall2 (fun v p => enc_sample strict f o v = Some p) vs ps ->
+  map (dec_sample f o) ps = map (stored f) vs /\
+  Forall (fun p => length p = width f) ps.
+Proof.
+  intros Hd H. induction H as [|v p vs ps Hvp _ IH].
+  - split; [reflexivity|constructor].
+  - destruct IH as [IH1 IH2].
+    { intros Hf. specialize (Hd Hf). inversion Hd; assumption. }
+    destruct (sample_roundtrip strict f o v p) as [H1 H2]; [|exact Hvp|].
+    { intros Hf. specialize (Hd Hf). inversion Hd; assumption. }
+    cbn [map]. split; [congruence|constructor; assumption].
+Qed.
+
+Lemma width_pos (f : dfmt) : (1 <= width f)%nat.
+Proof. destruct f; cbn [width]; lia. Qed.
+
+Lemma enc_block_length (strict : bool) (f : dfmt) (o : order) (b ch : list Z) :
+  enc_block strict f o b = Some ch -> length ch = (length b * width f)%nat.
+Proof.
+  intros H. destruct (enc_block_pieces strict f o b ch H) as [ps [Hps ->]].
+  destruct (pieces_length strict f o b ps Hps) as [H1 H2].
+  rewrite (concat_length_fixed (width f)) by assumption. congruence.
+Qed.
+
+(* the common core: successful packing of the hop = size blocks, then unpacking *)
+Lemma pack_unpack (strict : bool) (size : nat) (f : dfmt) (o : order) (pad : Z) (xs : list Z)
+      (chs : list (list Z)) :
+  (1 <= size)%nat ->
+  (f = Fd -> Forall (fun v => 0 <= v < 2 ^ 64) (pad :: xs)) ->
+  pack_blocks strict f o (blocks_spec size size pad xs) = (chs, false) ->
+  unpack_all f o (concat chs) = map (stored f) (padded size pad xs) /\
+  Forall (fun ch => length ch = (size * width f)%nat) chs.
+Proof.
+  intros Hs Hd H. apply pack_blocks_ok in H.
+  split.
+  - destruct (pack_blocks_pieces strict f o _ _ H) as [ps [Hps Hc]].
+    rewrite (blocks_concat_padded size pad xs Hs) in Hps.
+    destruct (pieces_decode strict f o _ ps) with (2 := Hps) as [H1 H2].
+    { intros Hf. apply padded_members. exact (Hd Hf). }
+    unfold unpack_all. rewrite Hc, frames_concat by (try assumption; apply width_pos).
+    exact H1.
+  - pose proof (blocks_all_length_size Z size size pad xs Hs Hs) as Hlen.
+    revert Hlen H. generalize (blocks_spec size size pad xs). intros bl Hlen H.
+    induction H as [|b ch bl chs Hb _ IH]; constructor.
+    + rewrite (enc_block_length strict f o b ch Hb), (Hlen b) by (left; reflexivity).
+      reflexivity.
+    + apply IH. intros b' Hb'. apply Hlen. right. exact Hb'.
+Qed.
+
+Theorem chunks_unpack (size : nat) (f : dfmt) (o : order) (pad : Z) (xs : list Z)
+        (chs : list (list Z)) :
+  (1 <= size)%nat ->
+  (f = Fd -> Forall (fun v => 0 <= v < 2 ^ 64) (pad :: xs)) ->
+  chunks_struct size f o pad xs = (chs, false) ->
+  unpack_all f o (concat chs) = map (stored f) (padded size pad xs) /\
+  Forall (fun ch => length ch = (size * width f)%nat) chs.
+Proof.
+  intros Hs Hd H. rewrite chunks_struct_spec in H by assumption.
+  exact (pack_unpack _ size f o pad xs chs Hs Hd H).
+Qed.
+
+Theorem chunks_unpack_array (size : nat) (f : dfmt) (o : order) (pad : Z) (xs : list Z)
+        (chs : list (list Z)) :
+  (1 <= size)%nat ->
+  (f = Fd -> Forall (fun v => 0 <= v < 2 ^ 64) (pad :: xs)) ->
+  chunks_array size f o pad xs = (chs, false) ->
+  unpack_all f o (concat chs) = map (stored f) (padded size pad xs) /\
+  Forall (fun ch => length ch = (size * width f)%nat) chs.
+Proof.
+  intros Hs Hd H. rewrite chunks_array_spec in H by assumption.
+  exact (pack_unpack _ size f o pad xs chs Hs Hd H).
+Qed.
+
+(* the integer formats need no side condition and give back the very integers *)
+Corollary chunks_unpack_int (size : nat) (f : dfmt) (o : order) (pad : Z) (xs : list Z)
+          (chs : list (list Z)) :
+  (1 <= size)%nat -> (f = Fb \/ f = Fh \/ f = Fi) ->
+  chunks_struct size f o pad xs = (chs, false) ->
+  unpack_all f o (concat chs) = padded size pad xs /\
+  Forall (fun ch => length ch = (size * width f)%nat) chs.
+Proof.
+  intros Hs Hf H.
+  destruct (chunks_unpack size f o pad xs chs Hs) as [H1 H2]; try assumption.
+  - intros ->. destruct Hf as [Hf|[Hf|Hf]]; discriminate Hf.
+  - split; [|exact H2]. rewrite H1. rewrite <- (map_id (padded size pad xs)) at 2.
+    apply map_ext. intros v. destruct Hf as [->|[->| ->]]; reflexivity.
+Qed.
+
+(* ------------------------------------------------------------------ *)
+(* 7. chunks: when do the two strategies agree?                         *)
+(*    They pack the same blocks; the only difference is binary32        *)
+(*    overflow, which struct's "<" / ">" modes reject and array stores  *)
+(*    as an infinity.                                                   *)
+(* ------------------------------------------------------------------ *)
+
+Definition no_f32_overflow (f : dfmt) (o : order) (vs : list Z) : Prop :=
+  f = Ff -> struct_strict o = true -> Forall (fun v => f32_overflows v = false) vs.
+
+Lemma enc_sample_strict_eq (f : dfmt) (o : order) (v : Z) :
+  (f = Ff -> f32_overflows v = false) ->
+  enc_sample true f o v = enc_sample false f o v.
+Proof.
+  intros H. destruct f; cbn [enc_sample]; try reflexivity.
+  unfold enc_f32. rewrite (H eq_refl). reflexivity.
+Qed.
+
+Lemma enc_block_strict_eq (f : dfmt) (o : order) : forall (b : list Z),
+  (f = Ff -> Forall (fun v => f32_overflows v = false) b) ->
+  enc_block true f o b = enc_block false f o b.
+Proof.
+  induction b as [|v r IH]; intros H; cbn [enc_block]; [reflexivity|].
+  rewrite enc_sample_strict_eq, IH; [reflexivity| |].
+  - intros Hf. specialize (H Hf). inversion H; assumption.
+  - intros Hf. specialize (H Hf). inversion H; assumption.
+Qed.
+
+Lemma pack_blocks_strict_eq (f : dfmt) (o : order) : forall (bl : list (list Z)),
+  (f = Ff -> Forall (fun v => f32_overflows v = false) (concat bl)) ->
+  pack_blocks true f o bl = pack_blocks false f o bl.
+Proof.
+  induction bl as [|b r IH]; intros H; cbn [pack_blocks]; [reflexivity|].
+  cbn [concat] in H.
+  rewrite enc_block_strict_eq, IH; [reflexivity| |].
+  - intros Hf. specialize (H Hf). apply Forall_app in H. tauto.
+  - intros Hf. specialize (H Hf). apply Forall_app in H. tauto.
+Qed.
+
+(* the lax packer never fails on floats ... *)
+Lemma enc_block_lax_Ff (o : order) : forall (b : list Z), enc_block false Ff o b <> None.
+Proof.
+  induction b as [|v r IH]; cbn [enc_block enc_sample]; [discriminate|].
+  unfold enc_f32. cbn [andb]. destruct (enc_block false Ff o r); [discriminate|congruence].
+Qed.
+
+Lemma pack_blocks_lax_Ff (o : order) : forall (bl : list (list Z)),
+  snd (pack_blocks false Ff o bl) = false.
+Proof.
+  induction bl as [|b r IH]; cbn [pack_blocks]; [reflexivity|].
+  pose proof (enc_block_lax_Ff o b) as Hb.
+  destruct (enc_block false Ff o b); [|congruence].
+  destruct (pack_blocks false Ff o r) as [ys e]. exact IH.
+Qed.
+
+(* ... and the strict one fails as soon as one value overflows *)
+Lemma enc_block_strict_Ff (o : order) : forall (b : list Z),
+  Exists (fun v => f32_overflows v = true) b -> enc_block true Ff o b = None.
+Proof.
+  induction b as [|v r IH]; intros H; [inversion H|].
+  cbn [enc_block enc_sample].
+  inversion H as [? ? Hv|? ? Hr]; subst.
+  - unfold enc_f32. rewrite Hv. reflexivity.
+  - rewrite (IH Hr). destruct (enc_f32 true o v); reflexivity.
+Qed.
+
+Lemma pack_blocks_strict_Ff (o : order) : forall (bl : list (list Z)),
+  Exists (fun v => f32_overflows v = true) (concat bl) ->
+  snd (pack_blocks true Ff o bl) = true.
+Proof.
+  induction bl as [|b r IH]; intros H; [inversion H|].
+  cbn [concat] in H. apply Exists_app in H. cbn [pack_blocks].
+  destruct (enc_block true Ff o b) as [x|] eqn:Ex; [|reflexivity].
+  destruct H as [H|H].
+  - rewrite (enc_block_strict_Ff o b H) in Ex. discriminate Ex.
+  - specialize (IH H). destruct (pack_blocks true Ff o r) as [ys e]. exact IH.
+Qed.
+
+(* exact characterisation: the strategies give the same result iff no sample that is
+   actually packed overflows binary32 under a strict ("<" or ">") float format *)
+Theorem chunks_struct_eq_array_iff (size : nat) (f : dfmt) (o : order) (pad : Z) (xs : list Z) :
+  (1 <= size)%nat ->
+  (chunks_struct size f o pad xs = chunks_array size f o pad xs <->
+   no_f32_overflow f o (padded size pad xs)).
+Proof.
+  intros Hs. rewrite chunks_struct_spec, chunks_array_spec by assumption.
+  unfold no_f32_overflow. split.
+  - intros H -> Hst. rewrite Hst in H.
+    apply Forall_forall. intros v Hv.
+    destruct (f32_overflows v) eqn:E; [exfalso|reflexivity].
+    assert (Hex : Exists (fun v => f32_overflows v = true)
+                         (concat (blocks_spec size size pad xs))).
+    { rewrite blocks_concat_padded by assumption. apply Exists_exists. eauto. }
+    apply (pack_blocks_strict_Ff o) in Hex.
+    rewrite H, pack_blocks_lax_Ff in Hex. discriminate Hex.
+  - intros H. destruct (struct_strict o) eqn:Hst; [|reflexivity].
+    apply pack_blocks_strict_eq. intros Hf.
+    rewrite blocks_concat_padded by assumption. exact (H Hf eq_refl).
+Qed.
+
+(* the stated equality, under the visible no-overflow hypothesis on the inputs *)
+Theorem chunks_struct_eq_array_partial (size : nat) (f : dfmt) (o : order) (pad : Z) (xs : list Z) :
+  (1 <= size)%nat ->
+  (f = Ff -> struct_strict o = true ->
+   Forall (fun v => f32_overflows v = false) (pad :: xs)) ->
+  chunks_struct size f o pad xs = chunks_array size f o pad xs.
+Proof.
+  intros Hs H. apply chunks_struct_eq_array_iff; [assumption|].
+  intros Hf Hst. apply padded_members. exact (H Hf Hst).
+Qed.
+
+(* unconditional for the integer and double formats, and for the native byte order *)
+Theorem chunks_struct_eq_array (size : nat) (f : dfmt) (o : order) (pad : Z) (xs : list Z) :
+  (1 <= size)%nat -> f <> Ff \/ struct_strict o = false ->
+  chunks_struct size f o pad xs = chunks_array size f o pad xs.
+Proof.
+  intros Hs H. apply chunks_struct_eq_array_partial; [assumption|].
+  intros Hf Hst. destruct H as [H|H]; [contradiction|congruence].
+Qed.
+
+(* whenever struct succeeds, array yields exactly the same chunks *)
+Theorem chunks_struct_ok_array (size : nat) (f : dfmt) (o : order) (pad : Z) (xs : list Z)
+        (chs : list (list Z)) :
+  (1 <= size)%nat ->
+  chunks_struct size f o pad xs = (chs, false) ->
+  chunks_array size f o pad xs = (chs, false).
+Proof.
+  intros Hs H. rewrite <- H. symmetry.
+  apply chunks_struct_eq_array_iff; [assumption|].
+  intros -> Hst. rewrite chunks_struct_spec, Hst in H by assumption.
+  apply Forall_forall. intros v Hv.
+  destruct (f32_overflows v) eqn:E; [exfalso|reflexivity].
+  assert (Hex : Exists (fun v => f32_overflows v = true)
+                       (concat (blocks_spec size size pad xs))).
+  { rewrite blocks_concat_padded by assumption. apply Exists_exists. eauto. }
+  apply (pack_blocks_strict_Ff o) in Hex. rewrite H in Hex. discriminate Hex.
+Qed.
+
+(* non-vacuity in general: when the pad and every sample are encodable (strictest mode)
+   neither strategy raises, and the number of chunks is the number of blocks *)
+Lemma enc_sample_lax (strict : bool) (f : dfmt) (o : order) (v : Z) :
+  enc_sample true f o v <> None -> enc_sample strict f o v <> None.
+Proof.
+  destruct strict; [tauto|]. destruct f; cbn [enc_sample]; try tauto.
+  intros _. unfold enc_f32. cbn [andb]. discriminate.
+Qed.
+
+Lemma enc_block_some (strict : bool) (f : dfmt) (o : order) : forall (b : list Z),
+  Forall (fun v => enc_sample strict f o v <> None) b -> enc_block strict f o b <> None.
+Proof.
+  induction b as [|v r IH]; intros H; cbn [enc_block]; [discriminate|].
+  inversion H as [|? ? Hv Hr]; subst. specialize (IH Hr).
+  destruct (enc_sample strict f o v); [|congruence].
+  destruct (enc_block strict f o r); [discriminate|congruence].
+Qed.
+
+Lemma pack_blocks_some (strict : bool) (f : dfmt) (o : order) : forall (bl : list (list Z)),
+  Forall (fun v => enc_sample strict f o v <> None) (concat bl) ->
+  snd (pack_blocks strict f o bl) = false /\
+  length (fst (pack_blocks strict f o bl)) = length bl.
+Proof.
+  induction bl as [|b r IH]; intros H; cbn [pack_blocks]; [split; reflexivity|].
+  cbn [concat] in H. apply Forall_app in H as [Hb Hr].
+  pose proof (enc_block_some strict f o b Hb) as Hb'.
+  destruct (enc_block strict f o b); [|congruence].
+  destruct (IH Hr) as [IH1 IH2].
+  destruct (pack_blocks strict f o r) as [ys e]. cbn [fst snd length] in *.
+  split; congruence.
+Qed.
+
+Theorem chunks_no_error (size : nat) (f : dfmt) (o : order) (pad : Z) (xs : list Z) :
+  (1 <= size)%nat ->
+  Forall (fun v => enc_sample true f o v <> None) (pad :: xs) ->
+  snd (chunks_struct size f o pad xs) = false /\
+  snd (chunks_array size f o pad xs) = false.
+Proof.
+  intros Hs H. rewrite chunks_struct_spec, chunks_array_spec by assumption.
+  split; apply pack_blocks_some; rewrite blocks_concat_padded by assumption;
+    apply padded_members; revert H; apply Forall_impl; intros v; apply enc_sample_lax.
 Qed.
